@@ -56,6 +56,9 @@ func C04() int {
 		}
 		items = append(items, rawItem(kind, l, i))
 	}
+	for i, l := range g.EnvelopeKinds() {
+		items = append(items, rawItem("envelope-kind", l, i))
+	}
 	// zone lines whose non-zone part is soup: command documents with extra
 	// non-query-bearing members holding arbitrary trees
 	for i := 0; i < pickN(c, 1500, 20000); i++ {
